@@ -104,7 +104,7 @@ theorem assignAddrs_replicate {a : Stmt} (h1 : a.pkg.address.isNone = false) (h2
     rw [ih]
     cases assignAddrs rest 0 <;> rfl
 
-theorem fixAll_replicate {ss : List Stmt} {a : Stmt} (ha : ∀ j, fixOne ss j a = .ok a) (rest : List Stmt) :
+theorem fixAll_replicate {ss : List Stmt} {a : Stmt} (ha : ∀ j, fixFit ss j a = .ok a) (rest : List Stmt) :
     ∀ n i, fixAll ss i (List.replicate n a ++ rest) =
       match fixAll ss (i + n) rest with | .ok r => .ok (List.replicate n a ++ r) | o => o := by
   intro n
@@ -112,16 +112,21 @@ theorem fixAll_replicate {ss : List Stmt} {a : Stmt} (ha : ∀ j, fixOne ss j a 
   | zero => intro i; simp only [List.replicate_zero, List.nil_append, Nat.add_zero]; cases fixAll ss i rest <;> rfl
   | succ n ih =>
     intro i
-    rw [List.replicate_succ, List.cons_append, fixAll, ha]
+    rw [List.replicate_succ, List.cons_append, fixAll_cons, ha]
     dsimp only
     rw [ih, show i + 1 + n = i + (n + 1) by omega]
     cases fixAll ss (i + (n + 1)) rest <;> rfl
 
 /-! ### single statements -/
 
-theorem resolveOperand_pseudo_ok {o : Operand} (hk : o.kind = .pseudo) (row : InstrRow) (t : SymTab) :
-    resolveOperand o row t = .ok o := by
+/-- a pseudo operand that is a number stays as it is (the data directives and ORG now resolve symbols and
+expressions) -/
+theorem resolveOperand_pseudo_ok {o : Operand} (hk : o.kind = .pseudo) (hv : o.value.isNumeric = true)
+    (row : InstrRow) (t : SymTab) : resolveOperand o row t = .ok o := by
   unfold resolveOperand; rw [hk]
+  cases hval : o.value <;> rw [hval] at hv <;> first | cases hv | skip
+  dsimp only
+  split <;> rfl
 
 /-- `fix_addresses` leaves a statement alone that is neither a branch nor refers to an address nor is
 PC-relative -/
@@ -251,7 +256,7 @@ theorem tail4_eq : tail4 = [far4, x4] := list_two default tail4 (by decide +kern
 
 theorem huge_facts0 :
     org0.row.isInclude = false ∧ tail0.all (fun s => !s.row.isInclude) = true ∧ org0.label.isEmpty = true ∧
-    org0.operand.kind = .pseudo := by decide +kernel
+    org0.operand.kind = .pseudo ∧ org0.operand.value.isNumeric = true := by decide +kernel
 
 theorem huge_facts2 :
     org2.fixedSize = true ∧ x2.fixedSize = true ∧ far2.fixedSize = false ∧ far2.pkg.choices = [0x8C, 0x8D] ∧
@@ -263,7 +268,7 @@ theorem huge_facts4 :
     (org2.operand.kind == .relative) = false ∧ org2.operand.value.isNumeric = true ∧ org2.pkg.needsRes = false ∧
     far4.operand.kind = .indexed ∧ far4.operand.value.isLeftRight = true ∧ far4.pkg.needsRes = true ∧
     selfMinus 70000 far4.pkg.additional = true ∧ far4.pkg.address.int? = some 0 ∧ far4.pcrHint = 4 ∧
-    far4.pkg.size = 4 := by decide +kernel
+    far4.pkg.size = 4 ∧ fitSkipped org2.row = true := by decide +kernel
 
 /-! ### the whole program -/
 
@@ -310,9 +315,9 @@ an internal error (ValueTypeError out of `fix_addresses`); `calculate_address_of
 unresolved expression, so the program ends in a diagnostic, whatever the host files are -/
 theorem huge_diag (fs : Files) (n : Nat) (hn : n = 70000) :
     assemble fs (List.replicate n hugeOrg ++ [hugeFar, hugeX]) = .diag := by
-  obtain ⟨g1, g2, g3, g4⟩ := huge_facts0
+  obtain ⟨g1, g2, g3, g4, g5⟩ := huge_facts0
   obtain ⟨f1, f2, f3, f4, f5, f6, f7, f8, f9, f10⟩ := huge_facts2
-  obtain ⟨k1, k2, k3, k4, k5, k6, k7, k8, k9, k10⟩ := huge_facts4
+  obtain ⟨k1, k2, k3, k4, k5, k6, k7, k8, k9, k10, k11⟩ := huge_facts4
   have hp : parseLines (List.replicate n hugeOrg ++ [hugeFar, hugeX]) = .ok (List.replicate n org0 ++ tail0) := by
     rw [parseLines_replicate org0_spec, tail0_spec]
   have hall : (List.replicate n org0 ++ tail0).all (fun s => !s.row.isInclude) = true := by
@@ -327,7 +332,7 @@ theorem huge_diag (fs : Files) (n : Nat) (hn : n = 70000) :
     rw [buildSymTab_replicate g3, Nat.zero_add, hn]; exact hugeTab_spec
   rw [h0]; dsimp only
   have h1 : resolveAll hugeTab (List.replicate n org0 ++ tail0) = some (List.replicate n org0 ++ tail1) := by
-    rw [resolveAll_replicate (resolveOperand_pseudo_ok g4 _ _), tail1_spec]; rfl
+    rw [resolveAll_replicate (resolveOperand_pseudo_ok g4 g5 _ _), tail1_spec]; rfl
   rw [h1]; dsimp only
   have h2 : translateAll (List.replicate n org0 ++ tail1) = some (List.replicate n org2 ++ tail2) := by
     rw [translateAll_replicate orgP_spec, tail2_spec]; rfl
@@ -340,10 +345,16 @@ theorem huge_diag (fs : Files) (n : Nat) (hn : n = 70000) :
     fixOne_plain k1 (by intro h; rw [h] at k2; cases k2)
       (by cases hv : org2.operand.value <;> rw [hv] at k2 <;> first | rfl | cases k2)
       (by cases hv : org2.operand.value <;> rw [hv] at k2 <;> first | rfl | cases k2) k3 _ j
-  have hfar : fixOne (List.replicate n org2 ++ [far4, x4]) n far4 = .diag :=
-    fixOne_selfMinus_diag k4 k5 k6 (by rw [hn]; exact k7)
+  have hfit : fitWidth org2 = .ok org2 := by
+    unfold fitWidth
+    rw [if_pos (by simpa [fitSkipped] using k11)]
+  have hplain' : ∀ j, fixFit (List.replicate n org2 ++ [far4, x4]) j org2 = .ok org2 := fun j =>
+    fixFit_ok.2 ⟨org2, hplain j, hfit⟩
+  have hfar : fixFit (List.replicate n org2 ++ [far4, x4]) n far4 = .diag := by
+    unfold fixFit
+    rw [fixOne_selfMinus_diag k4 k5 k6 (by rw [hn]; exact k7)]
   have h5 : fixAll (List.replicate n org2 ++ [far4, x4]) 0 (List.replicate n org2 ++ [far4, x4]) = .diag := by
-    rw [fixAll_replicate hplain, Nat.zero_add, fixAll, hfar]
+    rw [fixAll_replicate hplain', Nat.zero_add, fixAll_cons, hfar]
   rw [h5]
 
 end CoCo.Asm
